@@ -446,6 +446,18 @@ def check_view(spec, ctx):
         ctx.eq("gene:primary_transcript", B.transcripts.index(B.get_primary_transcript()), A.transcripts.index(A.get_primary_transcript()))
         if any(tb.chunk_relative_location.is_empty for tb in B.transcripts) and not all(tb.chunk_relative_location.is_empty for tb in B.transcripts):
             ctx.label("chunk_misses_some_members")
+        # the merged forms are built from the members' chromosome blocks: the same blocks whatever the chunk holds
+        for nm_ in ("get_merged_transcript", "get_merged_feature", "get_merged_cds"):
+            try:
+                ma = getattr(A, nm_)()
+            except (BioCantorException, ValueError, AttributeError):
+                continue
+            try:
+                mb = getattr(B, nm_)()
+                ctx.eq("gene:%s:chromosome_blocks" % nm_, rm.loc_blocks(mb.chromosome_location), rm.loc_blocks(ma.chromosome_location))
+            except (BioCantorException, ValueError) as e:
+                if not all(tb.chunk_relative_location.is_empty for tb in B.transcripts):
+                    ctx.fail("gene:%s_on_chunk_raises" % nm_, repr(e)[:120])
         ctx.eq("gene:chromosome_location", rm.loc_blocks(B.chromosome_location), rm.loc_blocks(A.chromosome_location))
         for ta, tb, ts in zip(A.transcripts, B.transcripts, o["transcripts"]):
             window_labels(ctx, ts["exons"], cs, ce, ts["strand"])
@@ -463,6 +475,12 @@ def check_view(spec, ctx):
         ctx.eq("feature_collection:to_dict_without_collection_guid", strip_guids(norm_dict(B.to_dict())), strip_guids(norm_dict(A.to_dict())))
         ctx.eq("feature_collection:guid", str(B.guid), str(A.guid))
         ctx.eq("feature_collection:primary_feature", B.feature_intervals.index(B.get_primary_feature()), A.feature_intervals.index(A.get_primary_feature()))
+        try:
+            ma = A.get_merged_feature()
+            mb = B.get_merged_feature()
+            ctx.eq("feature_collection:get_merged_feature:chromosome_blocks", rm.loc_blocks(mb.chromosome_location), rm.loc_blocks(ma.chromosome_location))
+        except (BioCantorException, ValueError):
+            pass
         for fa, fb, fs in zip(A.feature_intervals, B.feature_intervals, o["features"]):
             check_interval_view(ctx, fa, fb, fs["blocks"], fs["strand"], cs, ce, g, "fc_feature")
     elif kind == "collection":
